@@ -225,7 +225,8 @@ def verify_label(label):
 
 
 def get_date_type_respin(compose_id):
-    pattern = re.compile(r".*(?P<date>\d{8})(?P<type>\.[a-z]+)?(\.(?P<respin>\d+))?.*")
+    # the date never directly follows a dot or a digit; a respin can have 8 digits, too
+    pattern = re.compile(r".*(?<![.\d])(?P<date>\d{8})(?P<type>\.[a-z]+)?(\.(?P<respin>\d+))?.*")
     match = pattern.match(compose_id)
     if not match:
         return None, None, None
